@@ -1,5 +1,6 @@
 import LoguruModel.Emit.Lemmas
 import LoguruModel.Emit.NestedLemmas
+import LoguruModel.Emit.Threads
 /-
 C04 – a failing handler never breaks the caller, the other handlers, or itself.
 Only the property theorems and their non-vacuity examples live here.  Every statement is about
@@ -23,11 +24,13 @@ theorem shape_as_documented :
     Gen.removeUnpublishesFirst = true ∧ Gen.logLoopUnguarded = true ∧ Gen.stopMarksStoppedFirst = true ∧
     Gen.printSkipsWhenNoStderr = true ∧ Gen.printGuardsRecordStr = true ∧
     (∀ e, Gen.printSwallows e = true ↔ e = .osError) ∧
-    Gen.streamFlushAfterWrite = true ∧ Gen.taskCallbackRetrieves = true ∧ Gen.taskCallbackReraises = true := by
-  refine ⟨rfl, ?_, ?_, rfl, rfl, rfl, rfl, rfl, rfl, rfl, rfl, rfl, ?_, rfl, rfl, rfl⟩
+    Gen.streamFlushAfterWrite = true ∧ Gen.taskCallbackRetrieves = true ∧ Gen.taskCallbackReraises = true ∧
+    Gen.markerPerThread = true ∧ (∀ e, Gen.asyncScheduleSwallows e = false) := by
+  refine ⟨rfl, ?_, ?_, rfl, rfl, rfl, rfl, rfl, rfl, rfl, rfl, rfl, ?_, rfl, rfl, rfl, rfl, ?_⟩
   · intro e; cases e <;> rfl
   · intro e; cases e <;> rfl
   · intro e; cases e <;> simp [Gen.printSwallows]
+  · intro e; cases e <;> rfl
 
 /-- REFINEMENT: from a usable handler state and for a sink that does not call the logger, the whole
     of `Handler.emit` (try/except, lock, marker, hand-off) does exactly what the stage-by-stage
@@ -275,6 +278,41 @@ theorem nested_history_keeps_handlers_usable (env : Env) (ht : StderrTame env) (
     AllGood (runWN env n ops (cfgs.foldl (fun w c => addW c w) {})).1.reg ∧
     Res.blocked ∉ (runWN env n ops (cfgs.foldl (fun w c => addW c w) {})).2.2 :=
   runWN_good env ht n ops _ (addAll_good cfgs {} (by intro p hp; simp at hp))
+
+/-! ### coroutine sinks: a failure while the task is being scheduled is a failure of the `write` stage -/
+
+/-- the `except RuntimeError: return` of `AsyncSink.write` guards the loop lookup only: whatever is raised
+    while the task is scheduled (`loop.create_task` on a closed loop …) leaves `sink.write` as an error –
+    to be reported (`catch=True`, enqueue worker) or raised (`catch=False`) like any other sink failure -/
+theorem coroutine_schedule_failure_not_swallowed (env : Env) (c : Cfg) (i : Nat) (s : HState) (e : Err)
+    (hf : env.fault i c.id .write = some e) :
+    rawWrite env c i s = (s, .raised e) := by
+  unfold rawWrite
+  simp [hf, asyncSwallows_false]
+
+/-! ### several logging threads: the re-entrancy marker must belong to the calling thread
+(`Emit/Threads.lean`; `Gen.markerPerThread` is read from `_protected_lock`, `__init__`, `__setstate__`) -/
+
+/-- FOR EVERY NUMBER OF THREADS AND EVERY SCHEDULE of the four shared-memory actions of `_protected_lock`
+    (enter / acquire / re-enter from the running sink / leave): a thread that waits for or holds the handler
+    lock reads its own marker as set – so its sink's use of the logger is always refused with RuntimeError –
+    and no thread ever waits for a lock it holds itself -/
+theorem reentry_detected_across_threads (sched : List (Threads.Tid × Threads.Act)) :
+    (∀ t, ((Threads.run Gen.markerPerThread sched Threads.init).pc t = .waiting ∨
+           (Threads.run Gen.markerPerThread sched Threads.init).pc t = .inside) →
+          Threads.marked Gen.markerPerThread (Threads.run Gen.markerPerThread sched Threads.init) t = true) ∧
+    (∀ t, (Threads.run Gen.markerPerThread sched Threads.init).pc t ≠ .stuck) := by
+  have hp : Gen.markerPerThread = true := rfl
+  rw [hp]
+  have h := Threads.inv_run sched Threads.init Threads.inv_init
+  exact ⟨fun t ht => by simp [Threads.marked, h.1 t ht], h.2⟩
+
+/-- … whereas ONE marker shared by all threads does not have this property: thread 0 is inside its sink,
+    thread 1 starts logging (and overwrites the marker while it waits), thread 0's sink uses the logger –
+    and waits for its own lock for ever -/
+theorem shared_marker_deadlocks_witness :
+    (Threads.run false [(0, .enter), (0, .acquire), (1, .enter), (0, .reenter)] Threads.init).pc 0 = .stuck := by
+  decide
 
 /-! ### non-vacuity: concrete environments meeting the hypotheses, evaluated by the kernel -/
 
